@@ -139,6 +139,15 @@ def _is_stride32(e):
     return any(X.lin_eq(b['$n'], ('bin', 'Add', L, ('k', 31))) for L in (('call', 'core::slice::len', (('p', 1),)), ('len', ('p', 1))))
 
 
+def _columns_times_stride(e):
+    e = norm(e)
+    if e[0] == 'bin' and e[1] in ('Mul', 'MulUnchecked'):
+        for a, b in ((e[2], e[3]), (e[3], e[2])):
+            if a[0] == 'call' and a[1].endswith('DenseMatrix::columns') and _is_stride32(b):
+                return True
+    return False
+
+
 def _subterms(e):
     if isinstance(e, tuple):
         if e and isinstance(e[0], str):
@@ -191,7 +200,8 @@ def r43(db, ctx):
         Lc = _loop_with_header_or_iter(f, R, col[1])
         if Lc is None or len(_normal_exits(f, Lc)) != 1:
             probs.append('tail column loop can be left early')
-    # rows: from where the vector blocks stopped up to matrix.rows()
+    # rows: from where the vector blocks stopped up to matrix.rows() (spelled as the call, or as the value the matrix was resized to: R4.2)
+    is_rows = lambda e_: common.is_call_on(e_, 'DenseMatrix::rows', M) or _is_stride32(e_)
     rows_ok = False
     if len(cnts) == 1:
         cnt = cnts[0]
@@ -204,7 +214,7 @@ def r43(db, ctx):
                 Lr = max(cand, key=lambda L_: len(L_['body']))
                 incs = [d for d in f.defs().get(cnt, []) if d[0] in Lr['body']]
                 rels = G.relations(f, R, s['block'])
-                guard = G.holds(rels, 'lt', lambda e: norm(e) == ('v', cnt), lambda e: common.is_call_on(e, 'DenseMatrix::rows', M))
+                guard = G.holds(rels, 'lt', lambda e: norm(e) == ('v', cnt), is_rows)
                 ex = _normal_exits(f, Lr)
                 rows_ok = len(incs) == 1 and all(f.dominates(incs[0][0], lt) for lt in Lr['latches']) and guard is not None \
                     and len(ex) == 1 and len(f.defs().get(cnt, [])) == 3 and f.dominates(guard[-1], incs[0][0]) and guard[-1] == ex[0][0]
@@ -213,7 +223,7 @@ def r43(db, ctx):
             if b is not None and len(f.defs().get(cnt, [])) == 2:
                 e = C.extents.get(b['$L'])
                 Lr = _loop_with_header_or_iter(f, R, b['$L'])
-                rows_ok = bool(e) and len(e) == 1 and e[0][0] == 'sub' and e[0][2] == ('v', cnt) and common.is_call_on(e[0][1], 'DenseMatrix::rows', M) \
+                rows_ok = bool(e) and len(e) == 1 and e[0][0] == 'sub' and e[0][2] == ('v', cnt) and is_rows(e[0][1]) \
                     and Lr is not None and len(_normal_exits(f, Lr)) == 1
     if not rows_ok:
         probs.append(f'tail rows [{X.show(row, 60)}] do not run from the block counter to matrix.rows()')
@@ -228,7 +238,7 @@ def r43(db, ctx):
         e = C.extents.get(kb['$L']) if kb is not None else None
         Lf = _loop_with_header_or_iter(f, R, kb['$L']) if kb is not None else None
         if not (e and len(e) == 1 and e[0][0] == 'sub' and e[0][2] == kb['$lo'] and common.is_len_of(kb['$lo'], ('p', 1))
-                and common.is_product_of_calls(e[0][1], ['DenseMatrix::columns', 'DenseMatrix::rows'])
+                and (common.is_product_of_calls(e[0][1], ['DenseMatrix::columns', 'DenseMatrix::rows']) or _columns_times_stride(e[0][1]))
                 and Lf is not None and len(_normal_exits(f, Lf)) == 1):
             probs.append(f'fill range is {X.show(k, 100)} over {e}, expected len .. columns*rows')
     # rebuild through StripedSequence::new
